@@ -45,7 +45,7 @@ let read_file p = try let ic = open_in_bin p in let s = read_all ic in close_in 
 
 let () =
   let dump = ref None and fail_at = ref 0 and kind = ref "" and counter = ref None in
-  let pad = ref 0 and pad_err = ref 0 and no_read = ref false and print_file = ref None and partial = ref false in
+  let pad = ref 0 and pad_err = ref 0 and no_read = ref false and print_file = ref None and partial = ref false and flip = ref false in
   let rec opts = function
     | "--dump" :: f :: r -> dump := Some f; opts r
     | "--fail-at" :: k :: r -> fail_at := int_of_string k; opts r
@@ -55,6 +55,7 @@ let () =
     | "--pad-err" :: n :: r -> pad_err := int_of_string n; opts r
     | "--no-read" :: r -> no_read := true; opts r
     | "--partial" :: r -> partial := true; opts r
+    | "--flip" :: r -> flip := true; opts r
     | "--print-file" :: f :: r -> print_file := Some f; opts r
     | _ :: r -> opts r
     | [] -> ()
@@ -105,7 +106,17 @@ let () =
   | None ->
       print_string "c error: ill-formed instance\n"; flush stdout; exit 1
   | Some (nv, cls) ->
-      let r = Dpll.solve_n nv cls [] in
+      (* --flip: the OPPOSITE decision polarity without touching the verified solver - the instance with every literal
+         negated is solved and the model negated back; the verified DPLL decides `true` first (large models), so this
+         backend returns SMALL models: the solvers' search loops then grow their candidates step by step.  A valid
+         answer in any case (checked per run by the replay: every recorded model is validated). *)
+      let negl l = Dcommon.z_of_int (- (Dcommon.int_of_z l)) in
+      let r =
+        if !flip then
+          (match Dpll.solve_n nv (Stdlib.List.map (Stdlib.List.map negl) cls) [] with
+           | Some m -> Some (Stdlib.List.map (function Some b -> Some (not b) | None -> None) m)
+           | None -> None)
+        else Dpll.solve_n nv cls [] in
       let r =
         match r with
         | Some m when !partial ->
